@@ -120,7 +120,7 @@ def catalogue():
 
 
 ACTIONS_KNOWN = ["leave", "read", "read-mutate", "read-save-mutate", "assign",
-                 "assign-after-read",
+                 "assign-after-read", "assign-alt-shape",
                  "retag", "read-retag", "retag-same", "read-twice"]
 ACTIONS_UNKNOWN = ["leave", "read", "read-twice", "reattach"]
 
@@ -130,6 +130,8 @@ def actions_for(entry):
         return ACTIONS_UNKNOWN
     out = ["leave", "read", "assign", "assign-after-read", "retag-same",
            "read-twice", "reattach"]
+    if R.parse(entry["type"])[0] in ("sequence", "set", "tuple"):
+        out.append("assign-alt-shape")
     if entry.get("mutate"):
         out.append("read-mutate")
         out.append("read-save-mutate")
@@ -313,11 +315,23 @@ def run_history(entry, where, history):
                     ir.save_protobuf_file(io.BytesIO())
                     mutate(g, entry["mutate"], d)
                     want_bytes = None
-                elif act in ("assign", "assign-after-read"):
+                elif act in ("assign", "assign-after-read", "assign-alt-shape"):
                     if act == "assign-after-read":
                         aux.data
                     nv = new_value(entry, gen)
-                    aux.data = to_impl(g, nv, t)
+                    iv_ = to_impl(g, nv, t)
+                    if act == "assign-alt-shape":
+                        # an equal value in another legal Python shape
+                        if isinstance(iv_, list) and all(
+                                type(x) is int and 0 <= x < 256 for x in iv_):
+                            iv_ = bytes(iv_) if gen % 2 else bytearray(iv_)
+                        elif isinstance(iv_, list):
+                            iv_ = tuple(iv_)
+                        elif isinstance(iv_, tuple):
+                            iv_ = list(iv_)
+                        elif isinstance(iv_, set):
+                            iv_ = frozenset(iv_)
+                    aux.data = iv_
                     want_bytes = R.encode(nv, t)
                 elif act in ("retag", "read-retag"):
                     if act == "read-retag":
